@@ -808,6 +808,10 @@ func runC03(c *Ctx) {
 	ruleVersionPassThrough(c, p, "C03.version-through")
 	ruleLimitSiblings(c, p, "C03.limits")
 	ruleExceptionChain(c, p, "C03.exception-chain")
+	if rr := resolveDo(c, p); rr != nil {
+		ruleRetry(c, p, rr, "C03.retry")
+	}
+	ruleForwardM(c, p, "C03.forward", []string{"EncodeState", "DecodeState"})
 	{
 		c.R.Rule("C03.messages", "E2 containment and gate provenance (as C17.shape / C17.gates / C17.fieldorder) for every protocol message: what the server-side encoders of progress, profile, exception, table columns, ... emit at a revision is what the client's decoders consume at that revision")
 		pairs := messagePairs(p)
